@@ -51,8 +51,11 @@ type Conn struct {
 	isPeerOrigin bool
 	infoHash     core.InfoHash
 	createdAt    time.Time
-	localPeerID  core.PeerID
-	bandwidth    *bandwidth.Limiter
+
+	// Upper bound for the length of a piece payload announced by the remote peer.
+	maxPieceLength int64
+	localPeerID    core.PeerID
+	bandwidth      *bandwidth.Limiter
 
 	events Events
 
@@ -104,6 +107,7 @@ func newConn(
 		isPeerOrigin:   isRemotePeerOrigin,
 		infoHash:       info.InfoHash(),
 		createdAt:      clk.Now(),
+		maxPieceLength: info.MaxPieceLength(),
 		localPeerID:    localPeerID,
 		bandwidth:      bandwidth,
 		events:         events,
@@ -220,8 +224,17 @@ func (c *Conn) readMessage() (*Message, error) {
 	var pr storage.PieceReader
 	if p2pMessage.Type == p2p.Message_PIECE_PAYLOAD {
 		// For payload messages, we must read the actual payload to the connection
-		// after reading the message.
-		payload, err := c.readPayload(p2pMessage.PiecePayload.Length)
+		// after reading the message. The header comes from the remote peer: never
+		// trust it for more than the longest piece of the torrent.
+		pp := p2pMessage.GetPiecePayload()
+		if pp == nil {
+			return nil, errors.New("piece payload message has no body")
+		}
+		if pp.Length < 0 || int64(pp.Length) > c.maxPieceLength {
+			return nil, fmt.Errorf(
+				"invalid piece payload length %d: max piece length is %d", pp.Length, c.maxPieceLength)
+		}
+		payload, err := c.readPayload(pp.Length)
 		if err != nil {
 			return nil, fmt.Errorf("read payload: %s", err)
 		}
